@@ -159,6 +159,10 @@ func c08Case(w *core.Worker, i int) {
 		if fail == "ambiguous" && state != "temp" {
 			valid, sql = true, "CREATE TABLE `created.csv` (a, a) AS SELECT id, c1 FROM t;"
 		}
+		// the plain form, rejected for its column list
+		if fail == "subquery2" && state != "temp" {
+			valid, sql = true, []string{"CREATE TABLE `created.csv` (a, b, A);", "CREATE TABLE `created.csv` (a, a);", "CREATE TABLE `created.csv` (x, `y`, `x`);"}[k%3]
+		}
 	case "alter-add":
 		e := map[string]string{"divzero": div, "subquery2": sub, "udf-trigger": udf, "unknown-field": "nofield"}[fail]
 		if e == "" {
